@@ -99,7 +99,8 @@ def cases(tier, seed):
                             yield dict(kind="scatter", region=ri, size=size, seed=sd, proj=proj, extra=extra, inferred=inferred)
     for nx in (1, 2):
         yield dict(kind="extra_name", nx=nx)
-    for est in ("Trend", "KNeighbors", "Chain", "ChainReduce", "Vector", "CheckerBoard"):
+    for est in ("Trend", "KNeighbors", "Chain", "ChainReduce", "Vector", "CheckerBoard", "Spline", "SplineD", "Linear", "Cubic", "ScipyNearest",
+                "VectorSpline2D", "SplineCV"):
         for spec in (dict(shape=[3, 4]), dict(shape=[2, 5]), dict(spacing=[1.0, 0.5])):
             for proj in ("none", "rot"):
                 yield dict(kind="real", est=est, spec=spec, proj=proj)
@@ -567,6 +568,16 @@ def run(case, rec):
             est, data = vd.KNeighbors(k=1), d
         elif name == "Chain":
             est, data = vd.Chain([("t", vd.Trend(1)), ("k", vd.KNeighbors(k=2))]), d
+        elif name == "Spline":
+            est, data = vd.Spline(), d
+        elif name == "SplineD":
+            est, data = vd.Spline(damping=1e-3, force_coords=(e[:4] + 0.25, n[:4] - 0.5)), d
+        elif name in ("Linear", "Cubic", "ScipyNearest"):
+            est, data = {"Linear": lambda: vd.Linear(), "Cubic": lambda: vd.Cubic(), "ScipyNearest": lambda: vd.ScipyGridder("nearest")}[name](), d
+        elif name == "VectorSpline2D":
+            est, data = vd.VectorSpline2D(mindist=0.5), (d, -2.0 * d + e)
+        elif name == "SplineCV":
+            est, data = vd.SplineCV(dampings=(1e-3, 1e-1), cv=__import__("sklearn.model_selection", fromlist=["KFold"]).KFold(3)), d
         elif name == "ChainReduce":
             # the block means lie strictly inside the data's bounding box: the default region must still be that of the fitted data
             est, data = vd.Chain([("r", vd.BlockReduce(np.mean, spacing=2.0)), ("t", vd.Trend(1))]), d
@@ -595,7 +606,7 @@ def run(case, rec):
                         q = pf(*q)
                     p = est.predict(q)
                     p = p[k] if isinstance(p, tuple) else p
-                    if not (abs(float(p) - vals[i, j]) <= 1e-9 * (1 + abs(float(p)))):
+                    if not ((np.isnan(float(p)) and np.isnan(vals[i, j])) or abs(float(p) - vals[i, j]) <= 1e-9 * (1 + abs(float(p)))):
                         bad = (i, j, float(vals[i, j]), float(p))
             rec.check(bad is None, "%s grid value at %s differs from predict at that node: %s" % (name, bad[:2] if bad else "", bad))
         rec.check(ds.attrs.get("metadata") == "Generated by " + repr(est), "metadata")
